@@ -71,6 +71,7 @@ fn main() {
         "C09" => run_check::<engines::bank::BankCheck>(opts),
         #[cfg(feature = "builder")]
         "C20" => run_check::<engines::builder::BuilderCheck>(opts),
+        "C14" | "C15" | "C16" => run_check::<engines::staking::StakingCheck>(opts),
         "C17" => run_check::<engines::routing::RoutingCheck>(opts),
         "C19" => run_check::<engines::tree::det::DetCheck>(opts),
         "C01" | "C02" | "C03" | "C04" | "C05" | "C08" | "C10" | "C11" | "C12" | "C13" => run_check::<engines::tree::TreeCheck>(opts),
